@@ -10,6 +10,13 @@ def sh(cmd, cwd=None, env=None, timeout=900):
     p = subprocess.run(cmd, cwd=cwd, env=env, shell=True, capture_output=True, text=True, timeout=timeout)
     return p.returncode, p.stdout + p.stderr
 
+def _one_check(args):
+    p, overlay = args
+    from tcverif.__main__ import run_check
+    code, R = run_check(p, False, overlay=overlay, quiet=True, write=False)
+    return p, code, [(o2.rule, o2.construct, o2.detail[:140]) for o2 in R.obs if o2.status == 'VIOLATION'], getattr(R, 'error', '')
+
+
 def main():
     d = sys.argv[1]
     keep = '--keep' in sys.argv
@@ -38,10 +45,11 @@ def main():
                 rc, names = sh('git diff --name-only', cwd=wt)
                 overlay = {f: open(os.path.join(wt, f)).read() for f in names.split() if f.endswith('.py')}
                 alarms = {}
-                for p in props:
-                    code, R = run_check(p, False, overlay=overlay, quiet=True, write=False)
-                    if code != 0:
-                        alarms[p] = [(o2.rule, o2.construct, o2.detail[:140]) for o2 in R.obs if o2.status == 'VIOLATION'] or [('ANALYSIS-ERROR', getattr(R, 'error', ''))]
+                from concurrent.futures import ProcessPoolExecutor
+                with ProcessPoolExecutor(max_workers=16) as ex:
+                    for p, code, viol, err in ex.map(_one_check, [(p, overlay) for p in props]):
+                        if code != 0:
+                            alarms[p] = viol or [('ANALYSIS-ERROR', err)]
                 res['alarms'] = alarms
                 if keep and res['tests']:
                     dst = os.path.join(HERE, 'benign', f'{tag}-{n}')
